@@ -164,10 +164,19 @@ class Ctx:
                           os.path.join(REPO, 'src', 'runtime', 'logging.h'), os.path.join(GEN_DIR, 'Diag.lean')])
         return rc == 0, out
 
+    def translate_statics(self):
+        """process-wide statics of the library built from the current tree (nm) -> Generated/Statics.lean"""
+        os.makedirs(GEN_DIR, exist_ok=True)
+        lib = os.path.join(os.path.dirname(self.vh()), 'libsqfvm_static.a')
+        with Lock('gen'):
+            rc, out = sh([sys.executable, os.path.join(VERIF, 'translators', 'statics.py'), lib, os.path.join(GEN_DIR, 'Statics.lean')])
+        return rc == 0, out
+
     def translate_all(self):
         ok, out = self.translate_registry()
         ok2, out2 = self.translate_diag()
-        return ok and ok2, out + out2
+        ok3, out3 = self.translate_statics()
+        return ok and ok2 and ok3, out + out2 + out3
 
     # ---- Lean ---------------------------------------------------------------------------------
     def lean_build(self, targets):
